@@ -2103,6 +2103,31 @@ func c16NoRoutingEntryReplaced(c *Ctx) {
 	c.Floor(R, "routing-table registrations on the dial paths", n, 2)
 }
 
+// C18.11: both roles keep reading the peer's control stream after its SETTINGS frame: rawConn.handleControlStream hands
+// the stream to controlStrHandler, so every rawConn is created with one (or handleControlStream reads on by itself).
+// Otherwise a second SETTINGS, DATA / HEADERS on the control stream or its closure go unanswered instead of
+// H3_FRAME_UNEXPECTED / H3_CLOSED_CRITICAL_STREAM.
+func c18ControlStreamReadOn(c *Ctx) {
+	const R = "C18.11"
+	nrc := c.obj(h3, "", "newRawConn")
+	n := 0
+	for _, f := range c.P.ScopeFuncs() {
+		if funcPkgPath(f) != modPath+"/"+h3 {
+			continue
+		}
+		for _, in := range findInstrsLocal(f, CallsTo(nrc)) {
+			n++
+			args := in.(ssa.CallInstruction).Common().Args
+			// controlStrHandler is the fourth parameter
+			ok := len(args) >= 4 && !IsNil()(args[3])
+			c.FuncsSet[funcName(rootFn(f))] = true
+			c.Check(ok, R, "control:"+funcName(rootFn(f))+" reads the peer's control stream beyond SETTINGS", c.P.InstrPos(in),
+				"with a nil controlStrHandler nobody reads the control stream after the first frame: forbidden frames and the closure of the critical stream are never answered")
+		}
+	}
+	c.Floor(R, "newRawConn call sites", n, 2)
+}
+
 // valueOf: the instruction as a value (nil if it is not one).
 func valueOf(in ssa.Instruction) ssa.Value {
 	v, _ := in.(ssa.Value)
